@@ -1,5 +1,8 @@
 import Dtn7.Model.Store
 
+set_option linter.unusedSimpArgs false
+set_option linter.unusedSectionVars false
+
 /-!
 Helper lemmas for C08 (`Dtn7.Props.C08`). Core-only.
 -/
